@@ -16,8 +16,17 @@
 (* phase ph only.                                                          *)
 (*                                                                         *)
 (* Clauses named X_Known<Deviation> hold the violations that the           *)
-(* declarative model explains by one known deviation of the pinned code    *)
+(* declarative model explains by one known deviation of the code as it is  *)
 (* (TypeSystemOps.AllDeviations); X_Other holds every other violation.     *)
+(* The clause names are the signatures of known_findings.d and are kept    *)
+(* from the first version of the check: after the fixes bee086b..1991def   *)
+(*   KnownGenericArgsOnly       = deviation DistCovariantArgs (the classes *)
+(*       are compared now, the type arguments are still covariant),        *)
+(*   KnownUndefinedForNoneOrTuple = deviation                              *)
+(*       DistUndefinedForAnyBelowNoneOrTuple (None / unions are handled    *)
+(*       now, an Any subtype still is not).                                *)
+(* DistZeroOnIdentity has no known deviation any more (7303de6): every     *)
+(* violation of it is _Other.                                              *)
 (* Clauses named Drift_* compare the real matrices with the declarative    *)
 (* model of the code (no verdict).                                         *)
 (***************************************************************************)
@@ -42,7 +51,7 @@ At(name) == l > 0 /\ Clauses[ph] = name
 C25Clauses == <<"Total", "Refl", "Trans", "AnyTop", "UnionAll", "InstFollowsClass",
                 "AgreesWithIssubclass",
                 "DistDefinedOnlyWhenMaybeSub_KnownGenericArgsOnly", "DistDefinedOnlyWhenMaybeSub_Other",
-                "DistZeroOnIdentity_KnownUndefinedForNoneOrTuple", "DistZeroOnIdentity_Other",
+                "DistZeroOnIdentity_Other",
                 "Drift_Sub", "Drift_Maybe", "Drift_Dist", "Drift_Subclass", "Drift_StrictImpliesMaybe">>
 C26Clauses == <<"Total", "SameGenerators",
                 "OfferedCompatible_Random", "OfferedCompatible_KnownGenericArgsOnly", "OfferedCompatible_Other",
@@ -57,13 +66,15 @@ UT == cur.types
 N == DOMAIN cur.types
 \* the declarative side: the hierarchy as the model emitted it
 HM == MkH({cur.classes[i] : i \in DOMAIN cur.classes}, {cur.edges[i] : i \in DOMAIN cur.edges}, cur.anyd)
-CodeDistDeviations == {"DistGenericArgsOnly", "DistUndefinedForNoneOrTuple"}
+CodeDistDeviations == {"DistCovariantArgs", "DistUndefinedForAnyBelowNoneOrTuple"}
 
-\* a pair for which only the named deviation of the code makes the distance (un)defined
+\* a pair for which only the named deviation of the code makes the distance (un)defined:
+\* covariant type arguments of generic instances (somewhere inside t / s) ...
 KnownGenericArgsOnly(H, t, s) ==
-  DistR(H, {"DistGenericArgsOnly"}, t, s) # Undef /\ DistR(H, {}, t, s) = Undef
+  DistR(H, {"DistCovariantArgs"}, t, s) # Undef /\ DistR(H, {}, t, s) = Undef
+\* ... an Any subtype below a None / tuple supertype (somewhere inside t / s)
 KnownUndefined(H, t, s) ==
-  DistR(H, {"DistUndefinedForNoneOrTuple"}, t, s) = Undef /\ DistR(H, {}, t, s) # Undef
+  DistR(H, {"DistUndefinedForAnyBelowNoneOrTuple"}, t, s) = Undef /\ DistR(H, {}, t, s) # Undef
 
 (* --------------------------------------------------------------------- C25 *)
 \* every query answered (no exception): otherwise no law can be evaluated
@@ -86,15 +97,11 @@ DistDefinedOnlyWhenMaybeSub_Other ==
     \A i \in N : \A j \in N :
       DistWithoutMaybe(UT, cur.dist, cur.maybe, i, j) => KnownGenericArgsOnly(H, UT[i], UT[j])
 
+\* no deviation of the code makes the distance of an Any-free type to itself undefined any
+\* more (subtype_distance(None, None) = 0 since 7303de6): the whole law is one clause
 NonZeroIdentity(i) == AnyFree(UT[i]) /\ cur.dist[i][i] # 0
-DistZeroOnIdentity_KnownUndefinedForNoneOrTuple ==
-  At("DistZeroOnIdentity_KnownUndefinedForNoneOrTuple") =>
-    LET H == HM IN
-    \A i \in N : NonZeroIdentity(i) => ~(cur.dist[i][i] = Undef /\ KnownUndefined(H, UT[i], UT[i]))
 DistZeroOnIdentity_Other ==
-  At("DistZeroOnIdentity_Other") =>
-    LET H == HM IN
-    \A i \in N : NonZeroIdentity(i) => (cur.dist[i][i] = Undef /\ KnownUndefined(H, UT[i], UT[i]))
+  At("DistZeroOnIdentity_Other") => \A i \in N : ~NonZeroIdentity(i)
 
 (* real code vs. declarative model of the code: drift, never a verdict *)
 Drift_Sub == At("Drift_Sub") => cur.sub = SubMatrix(HM, TRUE, UT)
